@@ -44,6 +44,13 @@ LEAVES += [
       P("self._question_type", "forced")], "num", {"nat": True}),
     ("BrowserQuery", "query_time", "_services/browser.py", "QueryScheduler.async_send_ready_queries", ("arg", "generate_service_query", 1, 0),
      [P("now_millis", "now_millis")], "num", {}),
+    # the time a heard question is remembered with (review r3 m7): `now = msg.now` -- the arrival time of the last packet of the
+    # assembled query, not the clock at processing time (a deferred truncated query is processed 400-500 ms after it arrived) -- and that
+    # `now` is what `add_question_at_time` gets
+    ("BrowserQuery", "heard_stamp", "_handlers/query_handler.py", "QueryHandler.async_response", ("assign", "now", 0),
+     [P("msg.now", "msg_now")], "num", {}),
+    ("BrowserQuery", "heard_stamp_arg", "_handlers/query_handler.py", "QueryHandler.async_response", ("arg", "add_question_at_time", 1, 0),
+     [P("now", "now")], "num", {}),
     ("BrowserQuery", "query_type_arg", "_services/browser.py", "QueryScheduler.async_send_ready_queries", ("arg", "generate_service_query", 4, 0),
      [P("question_type", "question_type")], "num", {"nat": True}),
 ]
